@@ -711,95 +711,101 @@ def propagate_atom_copies(fn) -> int:
     module attribute, or another local that is not re-bound before the use): every read of x that only this definition
     reaches is replaced by A; a definition nothing reads any more is dropped. Decided on the CFG (reaching definitions), so a
     name that is assigned a different atom in every branch (what the inliner leaves of `for a, f in table_generator():`) is
-    resolved branch by branch."""
-    is_new = new_local_predicate(fn)
-    cands = [st for st in _own_nodes(fn) if isinstance(st, ast.Assign) and len(st.targets) == 1 and isinstance(st.targets[0], ast.Name) and is_new(st.targets[0].id)
-             and _atom(st.value)]
-    if not cands:
-        return 0
-    nested_names = {x.id for sc in _nested_scopes(fn) for x in ast.walk(sc) if isinstance(x, ast.Name)}
-    cands = [st for st in cands if st.targets[0].id not in nested_names]
-    if not cands:
-        return 0
+    resolved branch by branch. One definition per round; the CFG is rebuilt after every change."""
     from .cfg import CFG
-    try:
-        cfg = CFG(fn)
-    except Exception:
-        return 0
-    stored_local = {n.id for n in _own_nodes(fn) if isinstance(n, ast.Name) and isinstance(n.ctx, (ast.Store, ast.Del))} | {a.arg for a in fn.args.args + fn.args.kwonlyargs + fn.args.posonlyargs}
+    from .core import copy_ast
+    is_new = new_local_predicate(fn)
     done = 0
-    rd_cache = {}
+    skip = set()
+    for _ in range(48):
+        own = list(_own_nodes(fn))
+        stored_local = {n.id for n in own if isinstance(n, ast.Name) and isinstance(n.ctx, (ast.Store, ast.Del))} | {a.arg for a in fn.args.args + fn.args.kwonlyargs + fn.args.posonlyargs} \
+            | ({fn.args.vararg.arg} if fn.args.vararg else set()) | ({fn.args.kwarg.arg} if fn.args.kwarg else set())
+        nested_names = {x.id for sc in _nested_scopes(fn) for x in ast.walk(sc) if isinstance(x, ast.Name)}
+        cands = [st for st in own if isinstance(st, ast.Assign) and len(st.targets) == 1 and isinstance(st.targets[0], ast.Name) and is_new(st.targets[0].id)
+                 and _atom(st.value, stored_local) and st.targets[0].id not in nested_names and id(st) not in skip]
+        if not cands:
+            break
+        try:
+            cfg = CFG(fn)
+        except Exception:
+            break
+        rd_cache = {}
 
-    def rd(name):
-        if name not in rd_cache:
-            rd_cache[name] = cfg.reaching_defs(name)
-        return rd_cache[name]
+        def rd(name):
+            if name not in rd_cache:
+                rd_cache[name] = cfg.reaching_defs(name)
+            return rd_cache[name]
 
-    own = list(_own_nodes(fn))
-    for st in cands:
-        x = st.targets[0].id
-        dn = cfg.node_of(st)
-        if dn is None:
-            continue
-        src_names = [n.id for n in ast.walk(st.value) if isinstance(n, ast.Name) and n.id in stored_local]
-        loads = [n for n in own if isinstance(n, ast.Name) and n.id == x and isinstance(n.ctx, ast.Load)]
-        replaced_all = True
-        mine = []
-        for ld in loads:
-            un = cfg.header_node_for_expr(ld) or cfg.node_of(ld)
-            if un is None:
-                replaced_all = False
+        applied = False
+        for st in sorted(cands, key=lambda a: (a.lineno, a.col_offset)):
+            x = st.targets[0].id
+            dn = cfg.node_of(st)
+            if dn is None:
+                skip.add(id(st))
                 continue
-            reach = rd(x).get(un.id, set())
-            if dn.id not in reach:
+            src_names = [n.id for n in ast.walk(st.value) if isinstance(n, ast.Name) and n.id in stored_local]
+            loads = [n for n in own if isinstance(n, ast.Name) and n.id == x and isinstance(n.ctx, ast.Load)]
+            ok = True
+            mine = []
+            # `x += ...` / `del x` read or need the binding without a Load node: such a name is left alone
+            if any(isinstance(n, ast.AugAssign) and isinstance(n.target, ast.Name) and n.target.id == x for n in own) or \
+                    any(isinstance(n, ast.Name) and n.id == x and isinstance(n.ctx, ast.Del) for n in own):
+                skip.add(id(st))
                 continue
-            if reach != {dn.id} or un.id == dn.id:
-                replaced_all = False
+            for ld in loads:
+                un = cfg.header_node_for_expr(ld) or cfg.node_of(ld)
+                if un is None:
+                    ok = False
+                    break
+                reach = rd(x).get(un.id, set())
+                if dn.id not in reach:
+                    continue
+                if reach != {dn.id} or un.id == dn.id:
+                    ok = False
+                    break
+                # the atom's own locals hold the same value at the use as at the definition
+                if any(rd(sn).get(un.id, set()) != rd(sn).get(dn.id, set()) for sn in src_names) or x in src_names:
+                    ok = False
+                    break
+                mine.append(ld)
+            if not ok:
+                skip.add(id(st))
                 continue
-            # the atom's own locals hold the same value at the use as at the definition
-            if any(rd(sn).get(un.id, set()) != (rd(sn).get(dn.id, set())) for sn in src_names):
-                replaced_all = False
-                continue
-            if isinstance(getattr(ld, "_parent", None), ast.AugAssign) and ld._parent.target is ld:
-                replaced_all = False
-                continue
-            mine.append(ld)
-        if not replaced_all or not mine and loads:
-            if not replaced_all:
-                continue
-        from .core import copy_ast
-        for ld in mine:
-            par = ld._parent
-            rep = copy_ast(st.value)
-            for f, v in ast.iter_fields(par):
-                if v is ld:
-                    setattr(par, f, rep)
-                elif isinstance(v, list):
-                    for k, e in enumerate(v):
-                        if e is ld:
-                            v[k] = rep
-            rep._parent = par
-        # drop the definition
-        holder = st._parent
-        for attr in ("body", "orelse", "finalbody"):
-            blk = getattr(holder, attr, None)
-            if isinstance(blk, list) and any(b is st for b in blk):
-                blk[:] = [b for b in blk if b is not st] or [ast.copy_location(ast.Pass(), st)]
-        done += 1
-    if done:
-        for node in ast.walk(fn):
-            for child in ast.iter_child_nodes(node):
-                child._parent = node
+            for ld in mine:
+                par = ld._parent
+                rep = copy_ast(st.value)
+                for f, v in ast.iter_fields(par):
+                    if v is ld:
+                        setattr(par, f, rep)
+                    elif isinstance(v, list):
+                        for k, e in enumerate(v):
+                            if e is ld:
+                                v[k] = rep
+            holder = st._parent
+            for attr in ("body", "orelse", "finalbody"):
+                blk = getattr(holder, attr, None)
+                if isinstance(blk, list) and any(b is st for b in blk):
+                    blk[:] = [b for b in blk if b is not st] or [ast.copy_location(ast.Pass(), st)]
+            for node in ast.walk(fn):
+                for child in ast.iter_child_nodes(node):
+                    child._parent = node
+            done += 1
+            applied = True
+            break
+        if not applied:
+            break
     return done
 
 
-def _atom(e) -> bool:
+def _atom(e, local_names=frozenset()) -> bool:
+    """A constant, a plain name, or an attribute of something that is not a local of the function (module.function)."""
     if isinstance(e, ast.Constant):
         return True
     y = e
     while isinstance(y, ast.Attribute):
         y = y.value
-    return isinstance(y, ast.Name) and (y is e or y.id not in ("self", "cls"))
+    return isinstance(y, ast.Name) and (y is e or y.id not in local_names)
 
 
 def _literal(v):
